@@ -200,12 +200,59 @@ Proof.
   intros j. destruct (Nat.eq_dec j i) as [-> | Hj]; [auto|]. destruct F as (_ & _ & _ & F). exact (F j Hj).
 Qed.
 
+(* stop_process / start_process with the fuel of reap_all as a parameter: the proofs below are done for an
+   abstract fuel (conversion problems that mention the closed term `reap 100` make the kernel unfold it) *)
+Definition stop_process_f (fuel : nat) (i : nat) (wait : bool) : Model.M callres :=
+  bind getw (fun w =>
+  if mood w <? 1 then ret (CDone F_SHUTDOWN_STATE)
+  else if negb (Nat.ltb i nprocs) then ret (CDone F_BAD_NAME)
+  else
+    bind (gets i) (fun s =>
+    if negb (in_running_states s) then ret (CDone F_NOT_RUNNING)
+    else
+      bind (stop i) (fun err =>
+      if err then ret (CDone F_FAILED)
+      else
+        bind (reap fuel) (fun _ =>
+        bind (gets i) (fun s =>
+        if wait && negb (in_stopped_states s) then ret CDefer
+        else ret (CDone 0)))))).
+
+Lemma stop_process_f_eq i wait : Model.stop_process U pconfs i wait = stop_process_f 100 i wait.
+Proof. unfold Model.stop_process, stop_process_f, reap_all. reflexivity. Qed.
+
+Definition start_rest (fuel : nat) (i : nat) (wait : bool) : Model.M callres :=
+  bind (reap fuel) (fun _ =>
+  bind (getp i) (fun p =>
+  if spawnerr p then ret (CDone F_SPAWN_ERROR)
+  else bind (transition i) (fun _ => bind (gets i) (fun s =>
+       if wait && negb (pstate_eqb s RUNNING) then ret CDefer else ret (CDone 0))))).
+
+Definition start_process_f (fuel : nat) (i : nat) (wait : bool) : Model.M callres :=
+  bind getw (fun w =>
+  if mood w <? 1 then ret (CDone F_SHUTDOWN_STATE)
+  else if negb (Nat.ltb i nprocs) then ret (CDone F_BAD_NAME)
+  else
+    match c_cmd (cf i) with
+    | CmdNotFound => ret (CDone F_NO_FILE)
+    | CmdNotExec => ret (CDone F_NOT_EXECUTABLE)
+    | CmdOk =>
+      bind (gets i) (fun s =>
+      if in_running_states s then ret (CDone F_ALREADY_STARTED)
+      else if pstate_eqb s UNKNOWN then ret (CDone F_FAILED)
+      else bind (spawn i) (fun _ => start_rest fuel i wait))
+    end).
+
+Lemma start_process_f_eq i wait : Model.start_process U pconfs i wait = start_process_f 100 i wait.
+Proof. unfold Model.start_process, start_process_f, start_rest, reap_all. reflexivity. Qed.
+
 (* C3: stopProcess(wait=true) answering `true` at once: the process is STOPPED and has no child *)
-Theorem stop_true_means_stopped w i w' :
-  K w -> Model.stop_process U pconfs i true w = (Some (CDone 0), w') ->
+Lemma stop_true_means_stopped_f fuel w i w' :
+  K w -> stop_process_f fuel i true w = (Some (CDone 0), w') ->
   K w' /\ sts w' i = STOPPED /\ pid (procs w' i) = 0.
 Proof.
-  intros HK E. unfold Model.stop_process, reap_all in E. unfold bind at 1 in E. unfold getw at 1 in E. cbv beta in E.
+  intros HK E. unfold stop_process_f in E.
+  unfold bind at 1 in E. unfold getw at 1 in E. cbv beta in E.
   destruct (mood w <? 1); [refuse E|].
   destruct (Nat.ltb i nprocs); cbn [negb] in E; [|refuse E].
   unfold bind at 1 in E. unfold gets at 1 in E. cbv beta in E.
@@ -221,7 +268,7 @@ Proof.
     rewrite E1 in E0. inversion E0; subst b0 w1'. rewrite E1 in E.
     destruct (kill_post_shape _ _ _ _ _ _ _ _ _ _ _ _ HQ) as (r & Hr & Eb & Es1 & _).
     destruct (r =? 2); subst b; [refuse E|].
-    destruct (reap_stopping i 100 w1 K1 Es1) as (w2 & E2 & K2 & H2).
+    destruct (reap_stopping i fuel w1 K1 Es1) as (w2 & E2 & K2 & H2).
     unfold bind at 1 in E. rewrite E2 in E. unfold bind, gets in E.
     destruct H2 as [H2 | [H2 H3]]; rewrite H2 in E; cbn in E; [refuse E|].
     unfold ret in E. inversion E; subst w2. auto.
@@ -232,7 +279,7 @@ Proof.
     rewrite E1 in E0. inversion E0; subst b0 w1'. rewrite E1 in E.
     destruct (kill_post_shape _ _ _ _ _ _ _ _ _ _ _ _ HQ) as (r & Hr & Eb & Es1 & _).
     destruct (r =? 2); subst b; [refuse E|].
-    destruct (reap_stopping i 100 w1 K1 Es1) as (w2 & E2 & K2 & H2).
+    destruct (reap_stopping i fuel w1 K1 Es1) as (w2 & E2 & K2 & H2).
     unfold bind at 1 in E. rewrite E2 in E. unfold bind, gets in E.
     destruct H2 as [H2 | [H2 H3]]; rewrite H2 in E; cbn in E; [refuse E|].
     unfold ret in E. inversion E; subst w2. auto.
@@ -241,10 +288,15 @@ Proof.
     rewrite E1 in E0. inversion E0; subst b0 w1'. rewrite E1 in E.
     assert (Hp1 : pid (procs w1 i) = 0).
     { rewrite Ep1. autorewrite with procdb. apply K_pid_dead; [exact HK | rewrite Hs; reflexivity]. }
-    destruct (reap_untouched i 100 w1 K1 Hp1) as (w2 & E2 & K2 & Es2 & Ep2).
+    destruct (reap_untouched i fuel w1 K1 Hp1) as (w2 & E2 & K2 & Es2 & Ep2).
     unfold bind at 1 in E. rewrite E2 in E. unfold bind, gets in E. rewrite Es2, Es1 in E. cbn in E.
     unfold ret in E. inversion E; subst w2. split; [exact K2 | split; congruence].
 Qed.
+
+Theorem stop_true_means_stopped w i w' :
+  K w -> Model.stop_process U pconfs i true w = (Some (CDone 0), w') ->
+  K w' /\ sts w' i = STOPPED /\ pid (procs w' i) = 0.
+Proof. intros HK E. rewrite stop_process_f_eq in E. exact (stop_true_means_stopped_f 100 w i w' HK E). Qed.
 
 (* ... and the deferred form: the poll callback answers `true` only in a stopped state; the world is not
    changed; the process has no child unless it is UNKNOWN (a kill that failed with an error other than
@@ -255,23 +307,17 @@ Theorem stop_onwait_true_means_stopped w i w' :
 Proof.
   intros HK E. unfold Model.stop_onwait, bind, getw, gets in E.
   destruct (sts w i) eqn:Hs; cbn in E; try (refuse E; fail).
-  all: unfold ret in E; inversion E; subst w'; split; [reflexivity | split; [reflexivity|]]; intros Hn;
-       try congruence; apply K_pid_dead; [exact HK | rewrite Hs; reflexivity].
+  all: assert (Ew : w' = w) by (unfold ret in E; congruence).
+  all: split; [exact Ew|]. all: split; [reflexivity|]. all: intros Hn; try congruence.
+  all: apply K_pid_dead; [exact HK | rewrite Hs; reflexivity].
 Qed.
 
 (* C1: the answers of startProcess *)
-Definition start_rest (i : nat) (wait : bool) : Model.M callres :=
-  bind (reap 100) (fun _ =>
-  bind (getp i) (fun p =>
-  if spawnerr p then ret (CDone F_SPAWN_ERROR)
-  else bind (transition i) (fun _ => bind (gets i) (fun s =>
-       if wait && negb (pstate_eqb s RUNNING) then ret CDefer else ret (CDone 0))))).
-
-Lemma gr_start_rest o i wait : presG (GR o) (start_rest i wait).
+Lemma gr_start_rest o fuel i wait : presG (GR o) (start_rest fuel i wait).
 Proof. unfold start_rest. pose proof gr_reap. grtac. Qed.
 
-Lemma rv_start_rest i wait :
-  rv (fun c => c = CDone F_SPAWN_ERROR \/ c = CDefer \/ c = CDone 0) (start_rest i wait).
+Lemma rv_start_rest fuel i wait :
+  rv (fun c => c = CDone F_SPAWN_ERROR \/ c = CDefer \/ c = CDone 0) (start_rest fuel i wait).
 Proof.
   unfold start_rest. apply rv_bind; intros _. apply rv_bind; intros p.
   destruct (spawnerr p); [apply rv_ret; auto|]. apply rv_bind; intros _. apply rv_bind; intros s.
@@ -279,31 +325,38 @@ Proof.
 Qed.
 
 (* (a) an answer other than true / deferred / SPAWN_ERROR is a pure refusal *)
-Theorem start_fault_is_pure w i wait code w' :
-  Model.start_process U pconfs i wait w = (Some (CDone code), w') ->
+Lemma start_fault_is_pure_f fuel w i wait code w' :
+  start_process_f fuel i wait w = (Some (CDone code), w') ->
   code <> 0 -> code <> F_SPAWN_ERROR -> w' = w.
 Proof.
-  intros E H0 H1. unfold Model.start_process, reap_all in E. unfold bind at 1 in E. unfold getw at 1 in E. cbv beta in E.
+  intros E H0 H1. unfold start_process_f in E.
+  unfold bind at 1 in E. unfold getw at 1 in E. cbv beta in E.
   destruct (mood w <? 1); [unfold ret in E; inversion E; reflexivity|].
   destruct (Nat.ltb i nprocs); cbn [negb] in E; [|unfold ret in E; inversion E; reflexivity].
   destruct (c_cmd (cf i)); try (unfold ret in E; inversion E; reflexivity).
   unfold bind at 1 in E. unfold gets at 1 in E. cbv beta in E.
   destruct (in_running_states (sts w i)); [unfold ret in E; inversion E; reflexivity|].
   destruct (pstate_eqb (sts w i) UNKNOWN); [unfold ret in E; inversion E; reflexivity|].
-  exfalso. change (bind (spawn i) (fun _ => start_rest i wait) w = (Some (CDone code), w')) in E.
+  exfalso.
   unfold bind at 1 in E. destruct (spawn i w) as [[u|] w1]; [|discriminate E].
-  destruct (rv_start_rest i wait _ _ _ E) as [H | [H | H]]; inversion H; congruence.
+  destruct (rv_start_rest fuel i wait _ _ _ E) as [H | [H | H]]; inversion H; congruence.
 Qed.
+
+Theorem start_fault_is_pure w i wait code w' :
+  Model.start_process U pconfs i wait w = (Some (CDone code), w') ->
+  code <> 0 -> code <> F_SPAWN_ERROR -> w' = w.
+Proof. intros E. rewrite start_process_f_eq in E. exact (start_fault_is_pure_f 100 w i wait code w' E). Qed.
 
 (* (b) `true` (or a deferred answer) means that this call forked a child for the process, unless the
    process was STOPPING when the request arrived (the known finding: nothing is started then) *)
-Theorem start_true_implies_fork w i wait c w' :
-  K w -> Model.start_process U pconfs i wait w = (Some c, w') -> c = CDone 0 \/ c = CDefer ->
+Lemma start_true_implies_fork_f fuel w i wait c w' :
+  K w -> start_process_f fuel i wait w = (Some c, w') -> c = CDone 0 \/ c = CDefer ->
   sts w i = STOPPING \/
   (spawnable_state (sts w i) = true /\
    exists np l, out w' = l ++ EFork i np :: EState i (sts w i) STARTING (backoff (procs w i)) true :: out w).
 Proof.
-  intros HK E Hc. unfold Model.start_process, reap_all in E. unfold bind at 1 in E. unfold getw at 1 in E. cbv beta in E.
+  intros HK E Hc. unfold start_process_f in E.
+  unfold bind at 1 in E. unfold getw at 1 in E. cbv beta in E.
   assert (Hne : forall code w0, (Some (CDone code), w0) = (Some c, w') -> code <> 0 -> False).
   { intros code w0 E0 Hn. inversion E0; subst. destruct Hc as [Hc | Hc]; inversion Hc; congruence. }
   destruct (mood w <? 1); [exfalso; eapply Hne; [exact E | discriminate]|].
@@ -312,23 +365,30 @@ Proof.
   unfold bind at 1 in E. unfold gets at 1 in E. cbv beta in E.
   destruct (in_running_states (sts w i)) eqn:Er; [exfalso; eapply Hne; [exact E | discriminate]|].
   destruct (pstate_eqb (sts w i) UNKNOWN) eqn:Eu; [exfalso; eapply Hne; [exact E | discriminate]|].
-  change (bind (spawn i) (fun _ => start_rest i wait) w = (Some c, w')) in E.
   destruct (sts w i) eqn:Hs; try discriminate Er; try discriminate Eu; [| left; reflexivity | |].
   all: right; split; [reflexivity|].
   all: assert (Hp : pid (procs w i) = 0) by (apply K_pid_dead; [exact HK | rewrite Hs; reflexivity]).
-  all: destruct (spawn_ipre U pconfs i (sts w i) ltac:(rewrite Hs; left; reflexivity) w HK eq_refl) as (u0 & w1' & E0 & K1).
+  all: assert (Hsp' : spawnable (sts w i) = true \/ sts w i = STOPPING) by (rewrite Hs; left; reflexivity).
+  all: destruct (spawn_ipre U pconfs i (sts w i) Hsp' w HK eq_refl) as (u0 & w1' & E0 & K1).
   all: destruct (sx_world i (spawn i) w (spawn_post U pconfs i (sts w i) (procs w i) (out w) (now w)))
          as (u & w1 & E1 & F & HQ); [apply spawn_sx; [exact Hp | rewrite Hs; reflexivity]|].
   all: rewrite E1 in E0; inversion E0; subst u0 w1'; unfold bind at 1 in E; rewrite E1 in E.
   all: destruct HQ as [(np & _ & _ & _ & Eo) | (k & Es1 & Ep1 & _)].
-  all: try (pose proof (gr_start_rest (out w1) i wait w1 (GR_refl w1)) as HG; rewrite E in HG; destruct HG as [l El];
+  all: try (pose proof (gr_start_rest (out w1) fuel i wait w1 (GR_refl w1)) as HG; rewrite E in HG; destruct HG as [l El];
             exists np, l; cbn [snd] in El; rewrite El, Eo, Hs; reflexivity).
   all: exfalso.
   all: assert (Hp1 : pid (procs w1 i) = 0) by (rewrite Ep1; unfold spawn_fail_p, sp1; autorewrite with procdb; exact Hp).
-  all: destruct (reap_untouched i 100 w1 K1 Hp1) as (w2 & E2 & K2 & Es2 & Ep2).
+  all: destruct (reap_untouched i fuel w1 K1 Hp1) as (w2 & E2 & K2 & Es2 & Ep2).
   all: unfold start_rest in E; unfold bind at 1 in E; rewrite E2 in E; unfold bind at 1 in E; unfold getp at 1 in E;
        rewrite Ep2, Ep1 in E; unfold spawn_fail_p at 1 in E; autorewrite with procdb in E.
   all: eapply Hne; [exact E | discriminate].
 Qed.
+
+Theorem start_true_implies_fork w i wait c w' :
+  K w -> Model.start_process U pconfs i wait w = (Some c, w') -> c = CDone 0 \/ c = CDefer ->
+  sts w i = STOPPING \/
+  (spawnable_state (sts w i) = true /\
+   exists np l, out w' = l ++ EFork i np :: EState i (sts w i) STARTING (backoff (procs w i)) true :: out w).
+Proof. intros HK E. rewrite start_process_f_eq in E. exact (start_true_implies_fork_f 100 w i wait c w' HK E). Qed.
 
 End WithConfig.
